@@ -227,14 +227,17 @@ impl<T> Drop for Drain<'_, T> {
         if T::IS_ZST {
             // ZSTs have no identity, so we don't need to move them around, we only need to drop the correct amount.
             // this can be achieved by manipulating the slice length instead of moving values out from `iter`.
+            //
+            // The remaining elements are dropped by `truncate`, `iter` must not drop them again,
+            // not even when one of those drops panics.
+            let remaining = iter.len();
+            mem::forget(iter);
+
             unsafe {
                 let old_len = self.slice.len();
-                non_null::set_len(self.slice, old_len + iter.len() + self.tail_len);
+                non_null::set_len(self.slice, old_len + remaining + self.tail_len);
                 non_null::truncate(self.slice, old_len + self.tail_len);
             }
-
-            // The remaining elements have just been dropped by `truncate`, `iter` must not drop them again.
-            mem::forget(iter);
 
             return;
         }
